@@ -11,12 +11,14 @@ import (
 	"context"
 	"crypto/tls"
 	"crypto/x509"
+	"errors"
 	"fmt"
 	"io"
 	"net"
 	"sort"
 	"strings"
 	"testing"
+	"testing/synctest"
 	"time"
 
 	"github.com/prometheus/client_golang/prometheus"
@@ -46,7 +48,7 @@ type st struct {
 	pki   *world.PKI
 	hops  map[string]*world.Hop
 	led   ledger
-	conns []*world.Peer // client connections opened by the harness
+	conns []*world.Peer            // client connections opened by the harness
 	sent  map[*world.Peer][]string // methods of the requests sent on each client connection
 }
 
@@ -159,7 +161,7 @@ func (s *st) exchange(kind string, c *world.Peer) *world.Peer {
 		c.Send([]byte("ping"))
 		t.Send([]byte("pong-pong"))
 		// while the tunnel is up the request is in flight: checked by the caller via inTunnel
-		s.checkMetrics("inside " + kind, map[string]int{"CONNECT": 1})
+		s.checkMetrics("inside "+kind, map[string]int{"CONNECT": 1})
 		if kind == "connect-client-closes-first" {
 			c.CloseWrite()
 			t.CloseWrite()
@@ -516,6 +518,11 @@ func scenario(x *explore.X, maxLen int) {
 
 // ---- byte counters and close-once at the Listener / Dialer API ---------------------------------------
 
+// failingReader is a source that ends with an error instead of EOF.
+type failingReader struct{}
+
+func (failingReader) Read([]byte) (int, error) { return 0, errors.New("source reset") }
+
 func apiScenario(x *explore.X) {
 	side := x.ChooseFree("side", 2) // 0 accepted connection, 1 dialled connection
 	n := simnet.New()
@@ -563,7 +570,7 @@ func apiScenario(x *explore.X) {
 	var rx, tx uint64
 	ops := 1 + x.ChooseFree("ops-1", 3)
 	for i := 0; i < ops; i++ {
-		op := x.ChooseFree(fmt.Sprintf("op%d", i), 4)
+		op := x.ChooseFree(fmt.Sprintf("op%d", i), 6)
 		sz := sizes[x.ChooseFree(fmt.Sprintf("size%d", i), len(sizes))]
 		switch op {
 		case 0: // Write
@@ -579,6 +586,20 @@ func apiScenario(x *explore.X) {
 			}
 		case 2: // io.Copy into the connection (ReadFrom path)
 			k, _ := io.Copy(conn, bytes.NewReader(h1x.Pattern(sz, 3)))
+			tx += uint64(k)
+			peer.Take()
+		case 4: // a Write that is cut short: the peer stops reading (4 KiB socket buffer) and then resets
+			peer.SetLimit(4096)
+			var k int
+			done := make(chan struct{})
+			go func() { k, _ = conn.Write(h1x.Pattern(70000+sz, 5)); close(done) }()
+			synctest.Wait()
+			peer.Abort()
+			<-done
+			tx += uint64(k)
+			i = ops
+		case 5: // io.Copy into the connection from a source that fails after sz bytes (partial ReadFrom)
+			k, _ := io.Copy(conn, io.MultiReader(bytes.NewReader(h1x.Pattern(sz, 6)), failingReader{}))
 			tx += uint64(k)
 			peer.Take()
 		case 3: // io.Copy out of the connection (WriteTo path) until the peer half-closes
@@ -623,7 +644,7 @@ func apiScenario(x *explore.X) {
 
 func TestC13(t *testing.T) {
 	s := explore.NewSuite(t, "C13", "model_checking",
-		"(sequences) every sequence of 1-2 (quick) / 1-3 (thorough) exchanges over 18 kinds (two exchanges overlapping on two connections with the same X-Request-Id, ok, HEAD, POST, 403, 407, dial error, origin reset mid-body, CONNECT torn down client-first / target-first, Upgrade, MITM hand-off + inner request, rejected upstream CONNECT inside MITM, client abort while uploading / downloading / before the response, client abort while the proxy is still dialling the CONNECT target (the tunnel-establishing 200 cannot be written), client abort before the 101 of an Upgrade) on the same or a new client connection, against one proxy configured with basic auth, deny-domains, mitm-domains and a PAC-selected upstream; states = quiescent points between exchanges (and inside tunnels), at each the real Prometheus registry is gathered: in-flight gauge = requests in progress, requests_total = exactly one per request read under the status sent, listener/dialer active gauges = sockets the proxy actually holds (from the simulated network), all gauges zero at the end; (api) Listener/Dialer with traffic tracking: every sequence of <= 3 operations (Write, Read, io.Copy in/out) x sizes, Observer rx/tx = bytes moved, then 1-3 Close calls: active gauge drops exactly once; (concurrent-close) 2-3 threads closing one tracked connection under a controlled scheduler, OnClose exactly once")
+		"(sequences) every sequence of 1-2 (quick) / 1-3 (thorough) exchanges over 18 kinds (two exchanges overlapping on two connections with the same X-Request-Id, ok, HEAD, POST, 403, 407, dial error, origin reset mid-body, CONNECT torn down client-first / target-first, Upgrade, MITM hand-off + inner request, rejected upstream CONNECT inside MITM, client abort while uploading / downloading / before the response, client abort while the proxy is still dialling the CONNECT target (the tunnel-establishing 200 cannot be written), client abort before the 101 of an Upgrade) on the same or a new client connection, against one proxy configured with basic auth, deny-domains, mitm-domains and a PAC-selected upstream; states = quiescent points between exchanges (and inside tunnels), at each the real Prometheus registry is gathered: in-flight gauge = requests in progress, requests_total = exactly one per request read under the status sent, listener/dialer active gauges = sockets the proxy actually holds (from the simulated network), all gauges zero at the end; (api) Listener/Dialer with traffic tracking: every sequence of <= 3 operations (Write, Read, io.Copy in/out, a Write cut short by a stalled and then resetting peer, io.Copy from a source that fails after n bytes) x sizes, Observer rx/tx = bytes moved, then 1-3 Close calls: active gauge drops exactly once; (concurrent-close) 2-3 threads closing one tracked connection under a controlled scheduler, OnClose exactly once")
 	s.Assume = []string{"simnet is the ground truth for which sockets are open", "status of a response to a client that has vanished is unknowable; for those only 'exactly one completion' is required", "(concurrent-close) conntrack's sync.Once / atomics are redirected at build time to a cooperative scheduler: all interleavings of 2-3 concurrent Close calls (and a reader) with at most 2 (quick) / 3 (thorough) preemptions"}
 	for _, tier := range []string{"quick", "thorough"} {
 		l := map[string]int{"quick": 2, "thorough": 3}[tier]
